@@ -125,7 +125,7 @@ fn check_type<T: Jetty>(tname: &str, ctx: &Ctx, shard: usize, nshards: usize, ti
     let mut acc = Acc::new();
     let u = unit_roundoff::<T>();
     ndv_core::track::set_u(u);
-    let per = ctx.n(300, 20000);
+    let per = ctx.n(300, 100000);
     let mut idx = 0u64;
     // ---------------- powi
     for (ci, (cname, cgen)) in powi_classes(T::IS_F32).iter().enumerate() {
@@ -145,6 +145,9 @@ fn check_type<T: Jetty>(tname: &str, ctx: &Ctx, shard: usize, nshards: usize, ti
             let x: T = build_with(&shape, &slots, &mut MaskAbsent::new(mask));
             let (_, pres) = parts_presence(&x, &shape);
             let got = guarded(|| x.powi(n));
+            if let Ok(g) = &got {
+                ndv_core::evlog::log_unary("C09", tname, Func::Powi(n), &b, &slots, &parts(g, &shape), T::IS_F32);
+            }
             let xin = Tr::exact(Jet::from_slots(&b, &slots), &b);
             let m = xin.func(Func::Powi(n), &b);
             let class = format!("powi|{}|{}|{}|{}|{}", tname, cname, if x0 < 0.0 { "neg-base" } else { "pos-base" }, if n < 0 { "n<0" } else { "n>=0" }, presence_key(&pres));
@@ -241,6 +244,9 @@ fn check_type<T: Jetty>(tname: &str, ctx: &Ctx, shard: usize, nshards: usize, ti
             let x: T = build_with(&shape, &slots, &mut MaskAbsent::new(mask));
             let pf = f_of::<T>(p);
             let got = guarded(|| x.powf(pf));
+            if let Ok(g) = &got {
+                ndv_core::evlog::log_unary("C09", tname, Func::Powf(p), &b, &slots, &parts(g, &shape), T::IS_F32);
+            }
             let xin = Tr::exact(Jet::from_slots(&b, &slots), &b);
             let m = xin.func(Func::Powf(p), &b);
             let class = format!("powf|{}|{}|{}", tname, cname, STYLES[style]);
